@@ -346,6 +346,20 @@ Proof.
 Qed.
 Print Assumptions C09_define_inrange_refuted.
 
+(* writes through a primitive string (8.7.2) leave no trace, whatever the state *)
+Theorem C09_primitive_writes_vanish : forall define keys call u st k v m n,
+  step_obj define keys call u st (OSetPrim k v) = Some (st, VUndef) /\
+  step_obj define keys call u st (OSetPrimMethod m) = Some (st, VUndef) /\
+  step_obj define keys call u st (OSetLenPrim n) = Some (st, VUndef).
+Proof. exact primitive_writes_vanish. Qed.
+Print Assumptions C09_primitive_writes_vanish.
+
+(* an empty argument list behaves as an explicit undefined, in otto and in ES5, for every method and receiver *)
+Theorem C09_missing_argument_is_undefined : forall m r,
+  m <> MConcat -> call_model m r [] = call_model m r [AUndef] /\ call_spec m r [] = call_spec m r [AUndef].
+Proof. exact missing_argument_is_undefined. Qed.
+Print Assumptions C09_missing_argument_is_undefined.
+
 (* ---------- non-vacuity: the hypotheses above are met by concrete values ---------- *)
 Example C09_ascii_hyp_met : ascii [97; 98; 99] /\ bmp_clean [233; 26085; 97] /\ ~ In 0xFFFD [233; 26085; 97] /\ zlen [233; 26085; 97] < 2 ^ 62.
 Proof.
@@ -377,6 +391,9 @@ Example C09_index_hyp_met : 0 <= 1 < zlen [97; 98; 99] /\ lookup 1 (m_s empty_st
   run_obj (spec_obj [97; 98; 99]) empty_state [OSet LS 5 (PNum 7); OGet 5; OSet LS 1 (PNum 7); OGet 1] =
   Some [VUndef; VInt 7; VUndef; VStr [98]].
 Proof. vm_compute. repeat split; discriminate. Qed.
+Example C09_missing_argument_met : MIndexOf <> MConcat /\
+  call_spec MIndexOf (RLit [120; 117; 110; 100; 101; 102; 105; 110; 101; 100]) [] = Some (VInt 1).
+Proof. split; [discriminate | vm_compute; reflexivity]. Qed.
 Example C09_receiver_hyp_met : RNumR 5 <> RUndef /\ this_gostring MTrim (RNumR 5) = Some [53] /\
   call_model MSubstr RNull [n 1] = Some (VErr 6).
 Proof. repeat split; try discriminate. Qed.
